@@ -1,6 +1,7 @@
 (* C20 -- inverse pairs: word codecs, SMDH bit tables, RGB565 expansion, Morton tiling, DIFI descriptor.
    All statements are about the kernels regenerated from the current source (Gen_tmd, Gen_smdh, Gen_difi). *)
 From Pyctr Require Import Base.Prelude Base.ListExt Base.PyInt Base.PySlice Base.PyStr Base.Sweep Base.Fields.
+From Pyctr Require Import Model.Codecs Proofs.CodecsProofs Model.Nand Proofs.NandProofs.
 From Dyn Require Import Gen_tmd Gen_smdh Gen_difi.
 
 (* ---- title-version and content-type flag words (finite domains: swept completely, bound in the statement) ---- *)
@@ -172,3 +173,31 @@ Print Assumptions C20_rgb565.
 Print Assumptions C20_morton.
 Print Assumptions C20_morton_injective.
 Print Assumptions C20_difi_roundtrip.
+
+(* ---- save partition descriptors IVFC and DPFS (hand models of from_bytes / to_bytes, tied by correspondence) ---- *)
+Theorem C20_ivfc_parse_of_bytes : forall v, ivfc_ok v -> ivfc_from_bytes (ivfc_to_bytes v) = Ok v.
+Proof. exact ivfc_parse_of_bytes. Qed.
+Print Assumptions C20_ivfc_parse_of_bytes.
+Theorem C20_ivfc_bytes_of_parse : forall b v, bytes_ok b -> ivfc_from_bytes b = Ok v ->
+  (forall i, In i [0; 1; 2; 3] -> slice b (0x10 + i * 0x18 + 20) 4 = repeat 0 4) -> ivfc_to_bytes v = b.
+Proof. exact ivfc_bytes_of_parse. Qed.
+Print Assumptions C20_ivfc_bytes_of_parse.
+Theorem C20_dpfs_parse_of_bytes : forall v, dpfs_ok v -> dpfs_from_bytes (dpfs_to_bytes v) = Ok v.
+Proof. exact dpfs_parse_of_bytes. Qed.
+Print Assumptions C20_dpfs_parse_of_bytes.
+Theorem C20_dpfs_bytes_of_parse : forall b v, bytes_ok b -> dpfs_from_bytes b = Ok v ->
+  (forall i, In i [0; 1; 2] -> slice b (0x8 + i * 0x18 + 20) 4 = repeat 0 4) -> dpfs_to_bytes v = b.
+Proof. exact dpfs_bytes_of_parse. Qed.
+Print Assumptions C20_dpfs_bytes_of_parse.
+
+(* ---- the seed database: a database (unique ids below 2^64, 16-byte seeds) saved and loaded into an empty one comes back, in order ---- *)
+Theorem C20_seeddb_roundtrip : forall db, Forall entry_ok db -> keys_fresh [] db -> len db < 2 ^ 32 -> seeddb_load (seeddb_save db) [] = db.
+Proof. exact seeddb_roundtrip. Qed.
+Print Assumptions C20_seeddb_roundtrip.
+
+(* ---- the NAND NCSD header (model and proof shared with C13): parse then serialise gives back the 512 bytes ---- *)
+Theorem C20_ncsd_header_roundtrip : forall sig mu tbl unk mbr h,
+  len sig = 0x100 -> len unk = 94 -> len mbr = 66 -> length tbl = 8%nat -> 0 <= mu < 2 ^ 32 -> Forall tuple_ok tbl ->
+  nand_parse (mk_header sig mu tbl unk mbr) = Ok h -> nand_bytes h = mk_header sig mu tbl unk mbr.
+Proof. intros. eapply nand_header_roundtrip; eauto. Qed.
+Print Assumptions C20_ncsd_header_roundtrip.
